@@ -141,6 +141,15 @@ class Known:
             self.entries = json.load(open(path)).get("findings", [])
         except (OSError, ValueError):
             self.entries = []
+        # additional committed lists, one file per engine (same format)
+        ddir = os.path.join(VERIF, "known_findings.d")
+        if os.path.isdir(ddir):
+            for fn in sorted(os.listdir(ddir)):
+                if fn.endswith(".json"):
+                    try:
+                        self.entries += json.load(open(os.path.join(ddir, fn))).get("findings", [])
+                    except (OSError, ValueError):
+                        pass
 
     def match(self, prop, key):
         for e in self.entries:
